@@ -43,6 +43,14 @@ def explore(c):
             last = {"e": "stuck", "why": last.get("e", "stuck"), "signal": last.get("signal"), "schedule": last.get("schedule", ""), "T": T, "dir": d, "n": n, "spurious": sp}
         elif r.returncode != 0 or last.get("e") != "explored":
             raise wv.Infra("explorer failed on %s: rc=%s\n%s\n%s" % (cfgname(c), r.returncode, r.stdout[-1500:], r.stderr[-1500:]))
+        else:
+            tags = set()
+            for ln in out:
+                if ln.startswith('{"e":"tags"'):
+                    tags = set(json.loads(ln)["seen"].split())
+            need = {"begin", "cry", "ge", "chk", "bu", "ti", "ld0", "ld1", "wr", "wu", "sr", "su"} | ({"ex0", "ex1"} if n > 0 or d == "enc" else set())
+            if not need <= tags:
+                raise wv.Infra("instrumentation incomplete: scheduling points %s were never reached in %s (a WV_POINT hook is missing or misplaced in /repo); the exploration would be too coarse to be trusted" % (sorted(need - tags), cfgname(c)))
         json.dump(last, open(summ, "w"))
     return pre + ".nodes.ndjson", json.load(open(summ))
 
